@@ -367,9 +367,49 @@ def rule_c(chk, prog):
                 chk.violation("C20.c", where, s_.text, f"the default-materialising block writes .{s_.field}", loc=rmp.loc(s_.node))
 
 
+def rule_d(chk, prog):
+    """C20.d (a neutral value stays the value the user gave): the loops that copy the user's management objects onto the model's own structures
+    (`for a, v in obj.__dict__.items(): if hasattr(struct, a): struct.__setattr__(a, v)`) store the loop's value variable itself - not an
+    expression of it. `v or default` turns every option given as 0 (daily / seasonal maximum 0, efficiency 0, depth 0) into the default."""
+    from ..common import INIT_ROOT
+    from ..model import walk_no_nested
+    n = 0
+    for key in sorted(prog.reachable_from(INIT_ROOT)):
+        fi = prog.funcs.get(key)
+        if fi is None:
+            continue
+        for lp in walk_no_nested(fi.node):
+            if not (isinstance(lp, ast.For) and isinstance(lp.target, ast.Tuple) and len(lp.target.elts) == 2 and all(isinstance(e, ast.Name) for e in lp.target.elts)
+                    and isinstance(lp.iter, ast.Call) and isinstance(lp.iter.func, ast.Attribute) and lp.iter.func.attr == "items"
+                    and isinstance(lp.iter.func.value, ast.Attribute) and lp.iter.func.value.attr == "__dict__"):
+                continue
+            kname, vname = lp.target.elts[0].id, lp.target.elts[1].id
+            where = f"{fi.module}:{fi.qualname}"
+            for c in ast.walk(lp):
+                val = None
+                if isinstance(c, ast.Call) and isinstance(c.func, ast.Attribute) and c.func.attr == "__setattr__" and len(c.args) == 2 \
+                        and isinstance(c.args[0], ast.Name) and c.args[0].id == kname:
+                    val = c.args[1]
+                elif isinstance(c, ast.Call) and isinstance(c.func, ast.Name) and c.func.id == "setattr" and len(c.args) == 3 \
+                        and isinstance(c.args[1], ast.Name) and c.args[1].id == kname:
+                    val = c.args[2]
+                if val is None:
+                    continue
+                n += 1
+                chk.fn(key)
+                construct = f"for {kname}, {vname} in {norm(lp.iter)}: {norm(c)}"
+                if isinstance(val, ast.Name) and val.id == vname:
+                    chk.ok("C20.d", where, construct, "the user's value is copied as given")
+                else:
+                    chk.violation("C20.d", where, construct, f"the structure receives `{norm(val)}`, not the user's value `{vname}`: an option set to a neutral value (0) is "
+                                  "replaced - a daily or seasonal irrigation maximum of 0 no longer switches irrigation off", loc=fi.loc(c))
+    chk.floor("C20.d", n, 3, "attribute-copy loops from user objects onto model structures")
+
+
 def run(chk, prog, tier):
     rule_a(chk, prog)
     rule_b(chk, prog)
     rule_c(chk, prog)
+    rule_d(chk, prog)
     chk.assume("A-1")
     chk.exhaustive = True
